@@ -97,29 +97,26 @@ Definition deliver (blk : dict) (rest : bytes) : res (dict * bytes) :=
               else bind (parseLines (firstn e (wire ++ rest))) (fun d => Ok (d, skipn (e + 4) (wire ++ rest)))
   end).
 
-(* ---- both ends, on the wire.  m is the decider.  Same skeleton as Negotiate.negotiate, but every message is formatted,
-   framed, split and parsed *)
+(* ---- both ends, on the wire.  m is the decider.  Same skeleton as Negotiate.run (each end handles the peer's hello on its own;
+   the decider sends its decision and switches at once), but every message is formatted, framed, split and parsed *)
 Definition wire_run (m s : endpoint) : outcome * outcome :=
-  match deliver (hello_block m) [] with
-  | Exc t => (Failed "peer-hung-up", Failed t)
-  | Ok (offer_m, _) =>
-    match eval_hello_wire s offer_m with
-    | Exc t => (Failed "peer-hung-up", Failed t)
+  let s_hello := bind (deliver (hello_block m) []) (fun o => eval_hello_wire s (fst o)) in
+  match bind (deliver (hello_block s) []) (fun o => bind (eval_hello_wire m (fst o)) (fun ver => decide_wire m (fst o) ver)) with
+  | Exc tm => (Failed tm, match s_hello with Exc ts => Failed ts | Ok _ => Failed "RemoteNegotiationError" end)
+  | Ok dec =>
+    match s_hello with
+    | Exc ts => (SwitchedThenLost (snd dec), Failed ts)
     | Ok _ =>
-      match bind (deliver (hello_block s) []) (fun o => bind (eval_hello_wire m (fst o)) (fun ver => decide_wire m (fst o) ver)) with
-      | Exc t => (Failed t, Failed "RemoteNegotiationError")
-      | Ok dec =>
-        match bind (deliver (fst dec) []) (fun o => accept_wire s (fst o)) with
-        | Exc t => (Failed "peer-hung-up", Failed t)
-        | Ok p => (Banana (snd dec), Banana p)
-        end
+      match bind (deliver (fst dec) []) (fun o => accept_wire s (fst o)) with
+      | Exc t => (SwitchedThenLost (snd dec), Failed t)
+      | Ok p => (Banana (snd dec), Banana p)
       end
     end
   end.
 
 Definition wire_negotiate (a b : endpoint) : outcome * outcome :=
   if i_am_master (ep_id a) (ep_id b) then wire_run a b
-  else if i_am_master (ep_id b) (ep_id a) then let '(ob, oa) := wire_run b a in (oa, ob)
+  else if i_am_master (ep_id b) (ep_id a) then swap (wire_run b a)
   else (Failed "no-master", Failed "no-master").
 
 End Wire.
